@@ -253,6 +253,15 @@ func runTerm(env *Env, st *instrStore, eng *check.Engine, q *Tup, plan *faultPla
 				// (the configured max-depth is 5): recursion that does not consume depth
 				tr.hangSig = "deep-recursion:" + deep
 				tr.runaway = true
+			} else if rep := waitForRepeats(st, done, &tr); tr.returned {
+				// returned after all while we were watching the repeat counter
+			} else if rep > sameQueryRepeatLimit {
+				// still running and the very same storage query was issued more than
+				// sameQueryRepeatLimit times by this one check (max-depth 5, a few dozen
+				// tuples; the largest count seen on terminating checks is ~600): the
+				// recursion does not consume depth
+				tr.hangSig = "unbounded-storage-calls:same-query-repeated"
+				tr.runaway = true
 			} else if bound > 0 && float64(st.calls()) > bound {
 				// still running and already beyond the analytic bound of storage calls
 				tr.hangSig = "unbounded-storage-calls"
@@ -310,6 +319,26 @@ func runTerm(env *Env, st *instrStore, eng *check.Engine, q *Tup, plan *faultPla
 		}
 	}
 	return tr
+}
+
+const sameQueryRepeatLimit = 8000
+
+// waitForRepeats watches a check that did not return: up to 25 further
+// seconds, until it returns or one identical storage query has been repeated
+// more than sameQueryRepeatLimit times.
+func waitForRepeats(st *instrStore, done chan checkgroup.Result, tr *termRun) int {
+	for i := 0; i < 25; i++ {
+		if rep := st.maxRepeated(); rep > sameQueryRepeatLimit {
+			return rep
+		}
+		select {
+		case tr.res = <-done:
+			tr.returned = true
+			return st.maxRepeated()
+		case <-time.After(time.Second):
+		}
+	}
+	return st.maxRepeated()
 }
 
 // deepRecursion reports an engine goroutine whose stack is so deep that the
@@ -501,6 +530,7 @@ func runC15Case(run *runner, idx int64, cc *checkCase, maxK int64) string {
 		}
 		N := tr0.calls
 		run.count("storage_calls", N)
+		run.maxCounter("max_same_query_repeats_in_one_check", int64(st.maxRepeated()))
 		run.nontrivial(fmt.Sprintf("%d/%d", idx, qi))
 		if b := bound; float64(N) > b {
 			run.violate(violation{Index: idx, Sub: fmt.Sprintf("q%d/plain", qi), Sig: "C15:call-bound-exceeded",
